@@ -268,6 +268,63 @@ def judge [DecidableEq R] (f : P → R) (borrowed : R → R → R → Bool) (arr
       else .ok
   | v => v
 
+/-! ### progress, evaluated on an observed run
+
+  `C17_fifo_progress`: a request standing at index k of the line (requests that have entered the
+  queue and are not answered yet) is answered after at most k + 1 further completed model calls.
+  The observation of a run is the timeline of: a request entering the queue, a model call
+  completing, a caller receiving its answer.  `firstStarved` replays the timeline, remembers for
+  every waiting request the depth at which it entered and the number of completed model calls
+  it has seen since, and reports the first request that sees more than depth + 1 of them. -/
+
+inductive Obs where
+  | entered (id : Nat)
+  | completed
+  | answered (id : Nat)
+deriving Repr
+
+structure Wait where
+  id : Nat
+  depth : Nat
+  seen : Nat
+deriving Repr
+
+def Wait.over (x : Wait) : Bool := decide (x.depth + 1 < x.seen)
+
+/-- one observation: the new waiting list and, possibly, a request that waited too long -/
+def obsStep (w : List Wait) : Obs → List Wait × Option Wait
+  | .entered i => (w ++ [⟨i, w.length, 0⟩], none)
+  | .completed =>
+    let w' := w.map fun x => { x with seen := x.seen + 1 }
+    (w', w'.find? Wait.over)
+  | .answered i => (w.filter fun x => x.id != i, none)
+
+def firstStarved : List Wait → List Obs → Option Wait
+  | _, [] => none
+  | w, o :: os =>
+    match obsStep w o with
+    | (_, some x) => some x
+    | (w', none) => firstStarved w' os
+
+/-- the timeline an execution of the transition system produces (answers are handed out at the
+    moment the model call completes) -/
+def obsOfStep (cap : Nat) (s : State P R) : Action P → List Obs
+  | .arrive r => if s.queue.length < cap then [.entered r.id] else []
+  | .enter k =>
+    match s.putters[k]? with
+    | some r => [.entered r.id]
+    | none => []
+  | .take => []
+  | .close => []
+  | .complete => .completed :: (s.running.getD []).map fun r => .answered r.id
+
+def obsOfRun (cap : Nat) (f : P → R) : State P R → List (Action P) → List Obs
+  | _, [] => []
+  | s, a :: as =>
+    match step cap f s a with
+    | some s' => obsOfStep cap s a ++ obsOfRun cap f s' as
+    | none => []
+
 /-! ### the fingerprinting row model of the tie
 
   logits: `0` at index `i * fpVocab + tokᵢ` for every unmasked column `i`, `-inf` elsewhere, so
